@@ -140,9 +140,7 @@ func GenSamples(r *Rng, w Window, lookback int64, hostile bool) []Sample {
 		if r.P(0.03) {
 			v = StaleNaN
 		}
-		if tt >= 0 {
-			out = append(out, Sample{T: tt, V: v})
-		}
+		out = append(out, Sample{T: tt, V: v})
 	}
 	// boundary-directed extras
 	if w.Steps() > 0 && r.P(0.5) {
@@ -151,16 +149,27 @@ func GenSamples(r *Rng, w Window, lookback int64, hostile bool) []Sample {
 		d := Pick(r, []int64{-1, 0, 1})
 		off := Pick(r, []int64{L, L, 0, 60_000, 120_000, 61_000})
 		t := tk - off + d
-		if t >= 0 {
-			v := genValue(r, hostile)
-			if r.P(0.25) {
-				v = StaleNaN
-			}
-			out = append(out, Sample{T: t, V: v})
-			if r.P(0.3) && t > 0 {
-				out = append(out, Sample{T: t + Pick(r, []int64{-1, 1, 2}), V: StaleNaN})
+		v := genValue(r, hostile)
+		if r.P(0.25) {
+			v = StaleNaN
+		}
+		out = append(out, Sample{T: t, V: v})
+		if r.P(0.3) {
+			out = append(out, Sample{T: t + Pick(r, []int64{-1, 1, 2}), V: StaleNaN})
+		}
+	}
+	if w.StepMs > 0 && w.Steps() > 12 && r.P(0.08) {
+		// absent for exactly one of the engine's internal batches of 10 steps and back afterwards:
+		// a staleness marker just before step 10j, nothing until after step 10j+9
+		j := int64(1 + r.Intn((w.Steps()-1)/10))
+		from, to := w.StartMs+10*j*w.StepMs-1, w.StartMs+(10*j+9)*w.StepMs
+		kept := out[:0]
+		for _, sm := range out {
+			if sm.T < from || sm.T > to {
+				kept = append(kept, sm)
 			}
 		}
+		out = append(kept, Sample{T: from, V: StaleNaN})
 	}
 	sort.SliceStable(out, func(i, j int) bool { return out[i].T < out[j].T })
 	dd := out[:0]
@@ -206,16 +215,38 @@ func AddTwin(r *Rng, d *Dataset, w Window, lookback int64, hostile, handover boo
 	}
 	tw := Series{Labels: ls}
 	if handover && len(src.Samples) > 1 {
-		cut := w.StartMs + r.Int63n(w.EndMs-w.StartMs+1)
+		// one hand-over (A then B), or two (A, B, A again) with staleness markers in between so that
+		// the two never have a sample at the same step
+		span := w.EndMs - w.StartMs + 1
+		cut := w.StartMs + r.Int63n(span)
+		back := int64(math.MaxInt64)
+		if r.P(0.4) {
+			back = cut + 1 + r.Int63n(span)
+		}
 		var keep []Sample
+		lastOwner := 0
 		for _, sm := range src.Samples {
-			if sm.T < cut {
+			owner := 0
+			if sm.T >= cut && sm.T < back {
+				owner = 1
+			}
+			if owner != lastOwner && back != math.MaxInt64 {
+				// the previous owner goes stale right before the other one takes over
+				mark := Sample{T: sm.T - 1, V: StaleNaN}
+				if lastOwner == 0 {
+					keep = append(keep, mark)
+				} else {
+					tw.Samples = append(tw.Samples, mark)
+				}
+			}
+			lastOwner = owner
+			if owner == 0 {
 				keep = append(keep, sm)
 			} else {
 				tw.Samples = append(tw.Samples, Sample{T: sm.T, V: sm.V + 1})
 			}
 		}
-		if r.P(0.5) && len(keep) > 0 {
+		if back == math.MaxInt64 && r.P(0.5) && len(keep) > 0 {
 			keep = append(keep, Sample{T: keep[len(keep)-1].T + 1, V: StaleNaN})
 		}
 		d.Series[si].Samples = keep
